@@ -1878,6 +1878,11 @@ def pool3_S : ∀ c ∈ pool3, c.g.size = 3 := by
   simp only [pool3, List.mem_cons, List.not_mem_nil, or_false] at hc
   rcases hc with rfl | rfl | rfl <;> rfl
 
+def pool3_inv : Inv env4z (DPool.cts pool3) := by
+  intro c hc
+  simp only [pool3, DPool.cts, List.map_cons, List.map_nil, List.mem_cons, List.not_mem_nil, or_false] at hc
+  rcases hc with rfl | rfl | rfl <;> (show _ ≤ _; decide)
+
 /-- the toy parameter set of the examples (radix 4, `N = 2`, three limbs, keys of three rows) and its side conditions -/
 def pset4 (big : Bool) : ParamSet := ⟨4, big, 2, 3, 3⟩
 theorem pset4_room (big : Bool) : (pset4 big).Room := by cases big <;> decide
@@ -1982,13 +1987,14 @@ example : ∃ c', dAccumulate env4 2 (.ok xA) [] = .ok c' ∧ c'.ct = xA.ct :=
 theorem call_admissible_numeric {env : Env} (he : EnvOK env) {N S : Nat} (hN : 0 < N) {mk : MulKey} {ak : AutKeys} {s : List Poly}
     {Kb Emax : Int} {Ua : ℚ} (ht : TskNum env N S mk s Kb Emax) (hk : AtkNum env N S mk.big ak s Kb Emax Ua)
     (hroomPt : (S : Int) * (N * 2 ^ env.base2k * 2 ^ env.base2k) + 8 ≤ 2 ^ (KsDec.bitsOf mk.big - 2))
-    {pool : DPool} (hp : AllOK env N 1 pool) (hS : ∀ c ∈ pool, c.g.size = S) (op : XOp) (hop : OpOK env N S ak (DPool.cts pool) op)
+    {pool : DPool} (hp : AllOK env N 1 pool) (hS : ∀ c ∈ pool, c.g.size = S) (hI : Inv env (DPool.cts pool))
+    (op : XOp) (hop : OpOK env N S ak (DPool.cts pool) op)
     {mp : Ckks.Pool} (hm : stepR env (DPool.cts pool) op.toOp = .ok mp) :
     XAdm env N 1 mk ak s (UcOf env N S mk s Emax) Ua pool op :=
-  xadm_numeric he hN ht hk hroomPt hp hS op hop hm
+  xadm_numeric he hN ht hk hroomPt hp hS hI op hop hm
 
 example (big : Bool) : XAdm env4z 2 1 ⟨big, zk43⟩ ⟨[], none⟩ [[1, 1]] (UcOf env4z 2 3 ⟨big, zk43⟩ [[1, 1]] 512) 0 pool3 (.mul 2 0 1) :=
-  call_admissible_numeric env4z_ok (by norm_num) (tskNum4 big) (atkNum4 big) (roomPt4 big) pool3_ok pool3_S (.mul 2 0 1) trivial
+  call_admissible_numeric env4z_ok (by norm_num) (tskNum4 big) (atkNum4 big) (roomPt4 big) pool3_ok pool3_S pool3_inv (.mul 2 0 1) trivial
     (mp := ([⟨⟨4, 8⟩, 3⟩, ⟨⟨4, 8⟩, 3⟩, ⟨⟨4, 4⟩, 3⟩] : Ckks.Pool)) (by decide)
 
 /-- **`ckks_mul_add_ct_into` / `ckks_mul_sub_ct_into`** on tracked states: the product of `a`, `b` goes to `take_mul_tmp(dst)`, then the
@@ -2007,7 +2013,7 @@ theorem mul_add_ct_tracked {env : Env} (he : EnvOK env) {N r : Nat} {mk : MulKey
 example (big sub : Bool) : ∃ pool', xstep env4z 2 ⟨big, zk43⟩ ⟨[], none⟩ pool3 (.mulAdd sub 2 0 1) = .ok pool' ∧ AllOK env4z 2 1 pool' :=
   have hm : stepR env4z (DPool.cts pool3) (.mulAddCt 2 0 1) = .ok ([⟨⟨4, 8⟩, 3⟩, ⟨⟨4, 8⟩, 3⟩, ⟨⟨0, 0⟩, 3⟩] : Ckks.Pool) := by decide
   let ⟨p, h, _, hok, _⟩ := mul_add_ct_tracked (sub := sub) env4z_ok pool3_ok hm [[1, 1]] (UcOf_nonneg (by norm_num))
-    (call_admissible_numeric env4z_ok (by norm_num) (tskNum4 big) (atkNum4 big) (roomPt4 big) pool3_ok pool3_S (.mulAdd sub 2 0 1) trivial hm)
+    (call_admissible_numeric env4z_ok (by norm_num) (tskNum4 big) (atkNum4 big) (roomPt4 big) pool3_ok pool3_S pool3_inv (.mulAdd sub 2 0 1) trivial hm)
   ⟨p, h, hok⟩
 
 /-- **`ckks_mul_add_pt_vec_znx_into` / `ckks_mul_sub_pt_vec_znx_into`** on tracked states — no contract -/
@@ -2024,7 +2030,7 @@ theorem mul_add_pt_tracked {env : Env} (he : EnvOK env) {N r : Nat} (hN : 0 < N)
 
 example (big sub : Bool) : ∃ pool', xstep env4z 2 ⟨big, zk43⟩ ⟨[], none⟩ pool3 (.mulAddPt sub 2 0 ptOne pgOne) = .ok pool' ∧ AllOK env4z 2 1 pool' :=
   have hm : stepR env4z (DPool.cts pool3) (.mulAddPtZnx 2 0 ptOne) = .ok ([⟨⟨4, 8⟩, 3⟩, ⟨⟨4, 8⟩, 3⟩, ⟨⟨0, 0⟩, 3⟩] : Ckks.Pool) := by decide
-  have hadm := call_admissible_numeric env4z_ok (by norm_num) (tskNum4 big) (atkNum4 big) (roomPt4 big) pool3_ok pool3_S
+  have hadm := call_admissible_numeric env4z_ok (by norm_num) (tskNum4 big) (atkNum4 big) (roomPt4 big) pool3_ok pool3_S pool3_inv
     (.mulAddPt sub 2 0 ptOne pgOne) ⟨⟨by decide, by decide⟩, by decide⟩ hm
   let ⟨p, h, _, hok, _⟩ := mul_add_pt_tracked (mk := ⟨big, zk43⟩) (ak := ⟨[], none⟩) (sub := sub) env4z_ok (by norm_num) pool3_ok hadm.1 hm hadm.2.1 hadm.2.2 [[1, 1]]
   ⟨p, h, hok⟩
@@ -2043,7 +2049,7 @@ theorem dot_pt_tracked {env : Env} (he : EnvOK env) {N r : Nat} (hN : 0 < N) {mk
 
 example (big : Bool) : ∃ pool', xstep env4z 2 ⟨big, zk43⟩ ⟨[], none⟩ pool3 (.dotPt 2 [0, 1] ptOne [pgOne, pgOne]) = .ok pool' ∧ AllOK env4z 2 1 pool' :=
   have hm : stepR env4z (DPool.cts pool3) (.dotPtZnx 2 [0, 1] ptOne) = .ok ([⟨⟨4, 8⟩, 3⟩, ⟨⟨4, 8⟩, 3⟩, ⟨⟨4, 4⟩, 3⟩] : Ckks.Pool) := by decide
-  have hadm := call_admissible_numeric env4z_ok (by norm_num) (tskNum4 big) (atkNum4 big) (roomPt4 big) pool3_ok pool3_S
+  have hadm := call_admissible_numeric env4z_ok (by norm_num) (tskNum4 big) (atkNum4 big) (roomPt4 big) pool3_ok pool3_S pool3_inv
     (.dotPt 2 [0, 1] ptOne [pgOne, pgOne]) ⟨rfl, by intro pg hpg; simp at hpg; subst hpg; exact ⟨by decide, by decide⟩, by decide⟩ hm
   let ⟨p, h, _, hok, _⟩ := dot_pt_tracked (mk := ⟨big, zk43⟩) (ak := ⟨[], none⟩) env4z_ok (by norm_num) pool3_ok hadm.1 hadm.2.1 hm hadm.2.2.1 hadm.2.2.2 [[1, 1]]
   ⟨p, h, hok⟩
@@ -2061,9 +2067,29 @@ theorem dot_ct_unfused_tracked {env : Env} (he : EnvOK env) {N r : Nat} (hN : 0 
 
 example (big : Bool) : ∃ pool', xstep env4z 2 ⟨big, zk43⟩ ⟨[], none⟩ pool3 (.dotCt 2 [0] [1]) = .ok pool' ∧ AllOK env4z 2 1 pool' :=
   have hm : stepR env4z (DPool.cts pool3) (.dotCt 2 [0] [1]) = .ok ([⟨⟨4, 8⟩, 3⟩, ⟨⟨4, 8⟩, 3⟩, ⟨⟨4, 4⟩, 3⟩] : Ckks.Pool) := by decide
-  have hadm := call_admissible_numeric env4z_ok (by norm_num) (tskNum4 big) (atkNum4 big) (roomPt4 big) pool3_ok pool3_S
+  have hadm := call_admissible_numeric env4z_ok (by norm_num) (tskNum4 big) (atkNum4 big) (roomPt4 big) pool3_ok pool3_S pool3_inv
     (.dotCt 2 [0] [1]) (fun cs ds h1 _ => Or.inl (by rw [getAll_length h1]; rfl)) hm
   let ⟨p, h, _, hok, _⟩ := dot_ct_unfused_tracked (ak := ⟨[], none⟩) env4z_ok (by norm_num) pool3_ok hm [[1, 1]] (UcOf_nonneg (by norm_num)) hadm.1 hadm.2
+  ⟨p, h, hok⟩
+
+/-- **`ckks_mul_many`** on tracked states: the balanced product tree (`mul_many_rec`) into scratch ciphertexts, under the product contract
+on the triples it executes; the tracked result is `mmTrack`, computed along the metadata recursion (one product node per `ckks_mul_into`,
+an aligned copy for a single input) -/
+theorem mul_many_tracked {env : Env} (he : EnvOK env) {N r : Nat} {mk : MulKey} {ak : AutKeys} {pool : DPool}
+    (hp : AllOK env N r pool) {d : Nat} {as : List Nat} {mp : Ckks.Pool}
+    (hm : stepR env (DPool.cts pool) (.mulMany d as) = .ok mp) (s : List Poly) {Uc : ℚ} {S : Nat}
+    (hall : MulAdmAll env N r mk s S (UcScaled env Uc))
+    (hdS : ∀ cd, pool[d]? = some cd → cd.g.size ≤ S)
+    (hasS : ∀ a ∈ as, ∀ ca, pool[a]? = some ca → ca.g.size ≤ S ∧ ca.md.effK ≤ S * env.base2k) :
+    XGoal env N r mk ak s pool (.mulMany d as) mp (fun τ => specMulMany env N (sn r s) Uc (DPool.cts pool) τ d as) :=
+  xstep_mulMany he hp hm s hall hdS hasS
+
+example (big : Bool) : ∃ pool', xstep env4z 2 ⟨big, zk43⟩ ⟨[], none⟩ pool3 (.mulMany 2 [0, 1, 0]) = .ok pool' ∧ AllOK env4z 2 1 pool' :=
+  have hm : stepR env4z (DPool.cts pool3) (.mulMany 2 [0, 1, 0]) = .ok ([⟨⟨4, 8⟩, 3⟩, ⟨⟨4, 8⟩, 3⟩, ⟨⟨4, 0⟩, 3⟩] : Ckks.Pool) := by decide
+  have hadm := call_admissible_numeric env4z_ok (by norm_num) (tskNum4 big) (atkNum4 big) (roomPt4 big) pool3_ok pool3_S pool3_inv
+    (.mulMany 2 [0, 1, 0]) trivial hm
+  let ⟨S, h1, h2, h3⟩ := hadm
+  let ⟨p, h, _, hok, _⟩ := mul_many_tracked (ak := ⟨[], none⟩) env4z_ok pool3_ok hm [[1, 1]] h1 h2 h3
   ⟨p, h, hok⟩
 
 end Composites
@@ -2181,29 +2207,31 @@ stay within the explicit budget `xspecRun` (constants `UcOf` for the products, `
 
 Remaining hypotheses: key well-formedness (`TskWF`, `AtkWF`: the C01/C03 statements about generated keys — shape, coverage, balanced
 digits, key relation with `‖E‖∞ ≤ Emax`); the plaintext operands are well formed and have at most `S` limbs (`OpsOK`: the output of the
-float → integer conversion of §11 and `encode`); the initial ciphertexts have balanced digits (`AllOK`) and are tracked (`TracksB`: what
-encryption of an encoded message provides); `ckks_dot_product_ct` is called with one pair or with sides that do not share one `log_delta`
+float → integer conversion of §11 and `encode`); the initial ciphertexts have balanced digits (`AllOK`), satisfy the metadata invariant of §1
+(`Inv`) and are tracked (`TracksB`: what encryption of an encoded message provides); `ckks_dot_product_ct` is called with one pair or with sides that do not share one `log_delta`
 each (its fused path is not covered); a conjugation is called with its key. -/
 theorem ckks_program_correct (p : ParamSet) (hr : p.Room) {env : Env} (hb : env.base2k = p.b) {mk : MulKey} (hbig : mk.big = p.big)
     {ak : AutKeys} {s : List Poly} {Emax : Int} {Ua : ℚ} (hUa : 0 ≤ Ua)
     (ht : TskWF env p.N p.S p.D mk s Emax) (hk : AtkWF env p.N p.S p.D ak s Emax Ua)
-    (ops : List XOp) {pool : DPool} (hp : AllOK env p.N 1 pool) (hS : ∀ c ∈ pool, c.g.size = p.S)
+    (ops : List XOp) {pool : DPool} (hp : AllOK env p.N 1 pool) (hS : ∀ c ∈ pool, c.g.size = p.S) (hI : Inv env (DPool.cts pool))
     (hops : OpsOK env p.N p.S ak (DPool.cts pool) ops) {mp : Ckks.Pool} (hm : run env (DPool.cts pool) (ops.map XOp.toOp) = .ok mp) :
     ∃ pool', xrun env p.N mk ak pool ops = .ok pool' ∧ DPool.cts pool' = mp ∧ AllOK env p.N 1 pool' ∧ (∀ c ∈ pool', c.g.size = p.S) ∧
       ∀ τ, TracksB s p.N pool τ →
         TracksB s p.N pool' (xspecRun env p.N ak (sn 1 s) (UcOf env p.N p.S mk s Emax) Ua (DPool.cts pool) τ ops) :=
-  Ckks.ckks_program_correct p hr hb hbig hUa ht hk ops hp hS hops hm
+  Ckks.ckks_program_correct p hr hb hbig hUa ht hk ops hp hS hI hops hm
 
-/-- a product, a fused multiply-add, a single-pair dot product and a negation: accepted by the metadata model, hence executed and tracked -/
-def progC : List XOp := [.mul 2 0 1, .mulAdd false 2 0 1, .dotCt 2 [0] [1], .lin (.negAssign 2)]
+/-- a product, a multiply-add, a single-pair dot product, a product tree of three inputs and a negation: accepted by the metadata model,
+hence executed and tracked -/
+def progC : List XOp := [.mul 2 0 1, .mulAdd false 2 0 1, .dotCt 2 [0] [1], .mulMany 2 [0, 1, 0], .lin (.negAssign 2)]
 
 example (big : Bool) : ∃ pool', xrun env4z 2 ⟨big, zk43⟩ ⟨[], none⟩ pool3 progC = .ok pool' ∧ AllOK env4z 2 1 pool' ∧
     ∀ τ, TracksB [[1, 1]] 2 pool3 τ →
       TracksB [[1, 1]] 2 pool' (xspecRun env4z 2 ⟨[], none⟩ (sn 1 [[1, 1]]) (UcOf env4z 2 3 ⟨big, zk43⟩ [[1, 1]] 512) 0 (DPool.cts pool3) τ progC) :=
   let ⟨pool', h, _, hok, _, ht⟩ := ckks_program_correct (pset4 big) (pset4_room big) (env := env4z) rfl (mk := ⟨big, zk43⟩) rfl (ak := ⟨[], none⟩)
-    (s := [[1, 1]]) (Emax := 512) (Ua := 0) (le_refl _) (zk43_wf big) noKeys_wf progC pool3_ok pool3_S
-    ⟨trivial, fun _ _ => ⟨trivial, fun _ _ => ⟨fun cs ds h1 _ => Or.inl (by rw [getAll_length h1]; rfl), fun _ _ => ⟨trivial, fun _ _ => trivial⟩⟩⟩⟩
-    (mp := ([⟨⟨4, 8⟩, 3⟩, ⟨⟨4, 8⟩, 3⟩, ⟨⟨4, 4⟩, 3⟩] : Ckks.Pool)) (by decide)
+    (s := [[1, 1]]) (Emax := 512) (Ua := 0) (le_refl _) (zk43_wf big) noKeys_wf progC pool3_ok pool3_S pool3_inv
+    ⟨trivial, fun _ _ => ⟨trivial, fun _ _ => ⟨fun cs ds h1 _ => Or.inl (by rw [getAll_length h1]; rfl),
+      fun _ _ => ⟨trivial, fun _ _ => ⟨trivial, fun _ _ => trivial⟩⟩⟩⟩⟩
+    (mp := ([⟨⟨4, 8⟩, 3⟩, ⟨⟨4, 8⟩, 3⟩, ⟨⟨4, 0⟩, 3⟩] : Ckks.Pool)) (by decide)
   ⟨pool', h, hok, ht⟩
 
 end Correct
